@@ -17,3 +17,5 @@ echo "== check $P --tier $T $@"
 (cd /verif && ./check "$P" --tier "$T" "$@" > /tmp/seed_check.log 2>&1; echo "exit=$?" >> /tmp/seed_check.log)
 grep -E "VIOLATION|exit=|refuted|HARNESS|KNOWN" /tmp/seed_check.log | cut -c1-220 | head -12
 git checkout -- . ; git status --porcelain | head -3
+# evidence / replays written while the seed was applied are not evidence
+git -C /verif checkout -- evidence replays 2>/dev/null; git -C /verif clean -fq replays evidence 2>/dev/null
